@@ -702,6 +702,15 @@ class _Num(Sym):
             return SymReal(ta - q * tb, dt)
         if op == 'pow':
             tbs = z3.simplify(tb)
+            if _ENG is not None and _ENG.uf_division and ARRAY_CTX[0] and not (
+                    z3.is_int_value(z3.simplify(ta)) or z3.is_rational_value(z3.simplify(ta))):
+                # powers of symbolic samples as an uninterpreted function (products of symbolic terms
+                # of growing degree stall the nonlinear solver)
+                if kind == 'i':
+                    f = z3.Function('pow_ii', z3.IntSort(), z3.IntSort(), z3.IntSort())
+                    return _mk('i', f(ta, tb), dt)
+                f = z3.Function('pow_rr', z3.RealSort(), z3.RealSort(), z3.RealSort())
+                return SymReal(f(ta, tb), dt)
             if kind == 'i' and z3.is_int_value(tbs) and 0 <= tbs.as_long() <= 8:
                 r = z3.IntVal(1)
                 for _ in range(tbs.as_long()):
